@@ -988,7 +988,7 @@ pub fn run_general_thr(sc: &Scenario, hook_delay_us: u64) -> RunOut {
     let sh = sim::Shared::new(mix(sc.seed, 0x7487), sc.jitter);
     sh.lock().hook_delay_us = hook_delay_us;
     let sc2 = sc.clone();
-    let end = match sim::run_threads(&sh, 6, Duration::from_secs(30), move |sh| general(sh, sc2)) {
+    let end = match sim::run_threads(&sh, 6, Duration::from_secs(10), move |sh| general(sh, sc2)) {
         sim::RunEnd::Finished(()) => "finished",
         sim::RunEnd::Stalled => "stalled",
         sim::RunEnd::Panicked(_) => "panicked",
